@@ -112,3 +112,66 @@ def find_stmts(fi: FuncInfo, pred, into_nested=False):
 
 def calls_in(node, name=None):
     return [x for x in ast.walk(node) if isinstance(x, ast.Call) and (name is None or call_name(x) == name)]
+
+
+def memo_sites(fi):
+    """Memoisation sites of a function: (cache text, key expression, store statement) for `D[key] = value` with `key` a local
+    tuple/name whose cache D is also read back (`return D[key]`, `D.get(key)`, `key in D`)."""
+    keys = {}
+    for st in fi.stmts():
+        for t, v, _ in assigned_targets(st):
+            if isinstance(t, ast.Name) and isinstance(v, ast.Tuple):
+                keys[t.id] = v
+    out = []
+    body = " ".join(norm(s_) for s_ in fi.stmts())
+    for st in fi.stmts():
+        for t, v, _ in assigned_targets(st):
+            if isinstance(t, ast.Subscript) and isinstance(t.slice, ast.Name) and t.slice.id in keys:
+                cache = norm(t.value)
+                k = t.slice.id
+                if f"{cache}[{k}]" in body.replace(norm(st), "") or f"{cache}.get({k}" in body or f"{k} in {cache}" in body:
+                    out.append((cache, keys[k], st))
+    return out
+
+
+def memo_key_gaps(fi, key_expr):
+    """Parameters (or parts of them) the function reads that the key does not cover: a parameter that appears in the key only
+    through some attributes (`einsum.name`) while other attributes of it are read (`einsum.tensor_accesses`) is a gap."""
+    params = [p for p in fi.params() if p not in ("self", "cls")]
+    whole = {x.id for x in ast.walk(key_expr) if isinstance(x, ast.Name)}
+    via_attr = {}
+    pm = parent_map(key_expr)
+    for x in ast.walk(key_expr):
+        if isinstance(x, ast.Attribute) and isinstance(x.value, ast.Name):
+            via_attr.setdefault(x.value.id, set()).add(x.attr)
+    # names used bare in the key (not only as the base of an attribute)
+    bare = set()
+    for x in ast.walk(key_expr):
+        if isinstance(x, ast.Name):
+            par = pm.get(id(x))
+            if not (isinstance(par, ast.Attribute) and par.value is x):
+                bare.add(x.id)
+    gaps = []
+    for p_ in params:
+        reads_attr = set()
+        read_bare = False
+        for st in fi.stmts():
+            if any(y is key_expr for y in ast.walk(st)):
+                continue
+            spm = parent_map(st)
+            for x in ast.walk(st):
+                if isinstance(x, ast.Name) and x.id == p_ and isinstance(x.ctx, ast.Load):
+                    par = spm.get(id(x))
+                    if isinstance(par, ast.Attribute) and par.value is x:
+                        reads_attr.add(par.attr)
+                    else:
+                        read_bare = True
+        if not (reads_attr or read_bare):
+            continue
+        if p_ in bare:
+            continue
+        covered = via_attr.get(p_, set())
+        extra = reads_attr - covered
+        if p_ not in whole or extra or read_bare:
+            gaps.append(p_ if p_ not in whole else f"{p_}.{{{', '.join(sorted(extra)) or 'itself'}}}")
+    return gaps
